@@ -252,6 +252,14 @@ impl Parser {
     }
 }
 
+#[cfg(feature = "verif")]
+impl Parser {
+    /// Verification hook: builds a parser over an already tokenized stream.
+    pub fn verif_from_tokens(tokens: Vec<(Token, Span)>) -> Self {
+        Self { tokens, index: 0, spans: vec![] }
+    }
+}
+
 impl<const N: u32> Parse for ImmOrReg<N> {
     fn parse(parser: &mut Parser) -> Result<Self, ParseErr> {
         match parser.match_()? {
